@@ -26,6 +26,10 @@ class PyRaise(Exception):
         self.exc = exc
 
 
+class PathEnd(Exception):
+    """The path was explored only to discharge a loop-step (preservation) obligation; nothing follows."""
+
+
 class _Return(Exception):
     def __init__(self, v):
         self.v = v
@@ -286,6 +290,10 @@ class Interp:
             return v.nonempty
         if isinstance(v, AbsList):
             return v.length > 0
+        if isinstance(v, AbsSeq):
+            return v.length > 0
+        if isinstance(v, AbsAcc):
+            return (v.ghost_len + len(v.tail)) > 0
         if isinstance(v, (ExcVal, BoundMethod, Closure, FuncInfo, ClassInfo, LambdaV)):
             return True
         if isinstance(v, SFloat):
@@ -849,12 +857,9 @@ class Interp:
             else:
                 self.exec_block(s.orelse, env)
         elif T is ast.For:
-            hook = getattr(ctx, "loop_hook", None)
             itv = self.eval(s.iter, env)
-            if hook is not None:
-                handled = hook(self, s, itv, env)
-                if handled:
-                    return
+            if isinstance(itv, AbsSeq):
+                return self.exec_for_abstract(s, itv, env)
             broke = False
             for x in self.iterate(itv):
                 self.assign(s.target, x, env)
@@ -930,6 +935,40 @@ class Interp:
                 raise Unsupported("del")
         else:
             raise Unsupported(f"statement {T.__name__}")
+
+    def exec_for_abstract(self, s, seq, env):
+        """Hoare rule for `for x in seq` over an abstract sequence of unknown length (DESIGN.md 2.5).
+        The loop contract (seq.contract) supplies the fold invariant:
+          * step: havoc the accumulators to 'fold of an arbitrary prefix', bind x to an arbitrary element of
+            every admissible kind, run the body ONCE, and check the accumulators equal step_spec(prefix, x);
+            the path ends there (PathEnd).
+          * exit: havoc the accumulators to 'fold of the whole sequence' and continue after the loop."""
+        ctx = self.ctx
+        c = seq.contract
+        if c is None:
+            raise Unsupported(f"loop over abstract sequence {seq.name} without a loop contract")
+        ctx.stats["assumed_calls"][f"loop rule applied: {c.name}"] = ctx.stats["assumed_calls"].get(f"loop rule applied: {c.name}", 0) + 1
+        c.check_entry(self, env, seq)
+        kinds = c.element_kinds()
+        # choose: verify preservation for one element kind, or take the exit
+        for ki, kind in enumerate(kinds):
+            if ctx.branch(z3.Bool(f"loop!{c.name}!step!{ki}")):
+                c.havoc_prefix(self, env, seq)
+                elem = c.make_element(self, kind, seq)
+                for f in seq.maps:
+                    elem = f(self, elem)
+                self.assign(s.target, elem, env)
+                broke = False
+                try:
+                    self.exec_block(s.body, env)
+                except _Continue:
+                    pass
+                except _Break:
+                    broke = True
+                c.check_step(self, env, seq, kind, elem, broke)
+                raise PathEnd()
+        c.havoc_exit(self, env, seq)
+        self.exec_block(s.orelse, env)
 
     def exec_try(self, s, env):
         try:
@@ -1089,6 +1128,17 @@ class Interp:
             return d
         if T is ast.Subscript:
             return self.eval_subscript(e, env)
+        if T is ast.ListComp and len(e.generators) == 1 and not e.generators[0].ifs:
+            src = self.eval(e.generators[0].iter, env)
+            if isinstance(src, AbsSeq):
+                g = e.generators[0]
+
+                def fn(it, x, g=g, e=e, env=env):
+                    en = Env(env.module, env)
+                    it.assign(g.target, x, en)
+                    return it.eval(e.elt, en)
+                return src.derive(fn)
+            return self._listcomp(e, env, src)
         if T in (ast.ListComp, ast.GeneratorExp, ast.SetComp):
             out = []
             self.comp(e.generators, 0, env, lambda en: out.append(self.eval(e.elt, en)))
@@ -1105,6 +1155,15 @@ class Interp:
         if T is ast.Starred:
             raise Unsupported("starred expression")
         raise Unsupported(f"expression {T.__name__}")
+
+    def _listcomp(self, e, env, src):
+        out = []
+        g = e.generators[0]
+        for x in self.iterate(src):
+            en = Env(env.module, env)
+            self.assign(g.target, x, en)
+            out.append(self.eval(e.elt, en))
+        return out
 
     def eval_elts(self, elts, env):
         out = []
@@ -1450,6 +1509,7 @@ class RealMethodOnObj:
 
 class NativeAbs:
     """Base class for sidecar abstract values (abstract dicts, havocked files ...)."""
+    pytype = None
 
     def getattr(self, it, name):
         raise Unsupported(f"{type(self).__name__}.{name}")
@@ -1471,6 +1531,127 @@ class NativeAbs:
 
     def contains(self, it, x):
         raise Unsupported(f"contains {type(self).__name__}")
+
+
+class AbsSeq(NativeAbs):
+    """Abstract sequence of unknown length n >= 0 (e.g. an argument list, the lines of a file); can only be
+    iterated through a loop contract."""
+    pytype = list
+
+    def __init__(self, name, contract=None, length=None):
+        self.name = name
+        self.length = z3.Int(f"len!{name}") if length is None else length
+        self.contract = contract
+        self.maps = []      # element-wise functions applied to the base element (comprehensions, imap, ...)
+
+    def derive(self, fn, name=None):
+        d = AbsSeq(name or (self.name + "'"), self.contract, self.length)
+        d.maps = self.maps + [fn]
+        return d
+
+    def getattr(self, it, name):
+        if name == "__len__":
+            return SInt(self.length)
+        raise Unsupported(f"{name} on abstract sequence {self.name}")
+
+    def iterate(self, it):
+        raise Unsupported(f"iteration over abstract sequence {self.name} outside a for statement")
+
+
+class AbsAcc(NativeAbs):
+    """List accumulator 'Fold(prefix) ++ tail': an opaque part described by ghost terms plus the concrete items
+    appended during the iteration under verification."""
+    pytype = list
+
+    def __init__(self, name, ghost_len, ghost=None):
+        self.name = name
+        self.ghost_len = ghost_len      # z3 Int: length of the opaque part
+        self.ghost = ghost or {}
+        self.tail = []
+
+    def getattr(self, it, name):
+        if name == "append":
+            return _AccMethod(self, "append")
+        if name == "extend":
+            return _AccMethod(self, "extend")
+        if name == "__len__":
+            return SInt(self.ghost_len + len(self.tail))
+        raise Unsupported(f"list.{name} on accumulator {self.name}")
+
+    def iterate(self, it):
+        raise Unsupported(f"iteration over accumulator {self.name}")
+
+
+class _AccMethod(NativeAbs):
+    def __init__(self, acc, name):
+        self.acc = acc
+        self.name = name
+
+    def call(self, it, args, kwargs):
+        it.ctx.cwrites.append(id(self.acc))
+        if self.name == "append":
+            self.acc.tail.append(args[0])
+        else:
+            self.acc.tail.extend(it.iterate(args[0]))
+        return None
+
+
+class AbsAccDict(NativeAbs):
+    """dict accumulator: opaque part (ghost) plus the entries written during the iteration under verification"""
+    pytype = dict
+
+    def __init__(self, name, ghost=None):
+        self.name = name
+        self.ghost = ghost or {}
+        self.tail = []      # list of (key, value) in write order
+
+    def getattr(self, it, name):
+        if name == "update":
+            return _AccDictUpdate(self)
+        raise Unsupported(f"dict.{name} on accumulator {self.name}")
+
+    def setitem(self, it, k, v):
+        it.ctx.cwrites.append(id(self))
+        self.tail.append((k, v))
+
+
+class _AccDictUpdate(NativeAbs):
+    def __init__(self, acc):
+        self.acc = acc
+
+    def call(self, it, args, kwargs):
+        it.ctx.cwrites.append(id(self.acc))
+        d = args[0]
+        if isinstance(d, dict):
+            self.acc.tail.extend(d.items())
+            return None
+        raise Unsupported("update of accumulator with abstract dict")
+
+
+class LoopContract:
+    """Fold invariant of one loop; subclassed in the sidecar contracts."""
+    name = "loop"
+
+    def element_kinds(self):
+        return ["any"]
+
+    def check_entry(self, it, env, seq):
+        pass
+
+    def havoc_prefix(self, it, env, seq):
+        raise NotImplementedError
+
+    def make_element(self, it, kind, seq):
+        raise NotImplementedError
+
+    def check_step(self, it, env, seq, kind, elem, broke):
+        raise NotImplementedError
+
+    def havoc_exit(self, it, env, seq):
+        raise NotImplementedError
+
+    def oblige(self, it, name, inst, goal, detail=""):
+        it.ctx.obligations.append((name, inst, goal, detail))
 
 
 NATIVE_STUBBABLE = {"deepcopy"}
@@ -1885,6 +2066,11 @@ def explore(loader, setup, run, contracts=None, target=None, max_paths=4096, con
                 ex.infeasible += 1
             else:
                 ex.paths.append(p)
+        except PathEnd:
+            if ctx.check():
+                ex.paths.append(Path(ctx, None, "loop-step", None))
+            else:
+                ex.infeasible += 1
         except Infeasible:
             ex.infeasible += 1
         except Unsupported as u:
